@@ -450,9 +450,10 @@ def check_router(ctx, model):
         if w is None:
             continue
         n = 0
-        for b, t in w.calls_to(r"querier::query_pair_info$"):
+        from .common import scope_calls, scope_origins
+        for w_, chain_, b, t in scope_calls(model, q, r"querier::query_pair_info$"):
             n += 1
-            fac = arg_origins(w, b, t, 1, taint=True)
+            fac = scope_origins(model, chain_, w_, t["args"][1], w_.at_term(b), taint=True)
             if fac and all(o.kind == "param" for o in fac):
                 # helper: resolve the parameter at every call site
                 res = set()
@@ -469,13 +470,11 @@ def check_router(ctx, model):
                    "pair resolved through factory %s" % sorted(map(repr, fac))[:3], w.where(b))
         ctx.floor("C19-R7", "query_pair_info call sites in %s" % q.split("::")[-1], n, 1)
         # pair address used for the hop comes from that query
-        for b, t in w.iter_calls():
+        for w_, chain_, b, t in scope_calls(model, q, r"operations::asset_into_swap_msg$|querier::simulate$|querier::reverse_simulate$"):
             nme = mname(t)
-            if nme.endswith("operations::asset_into_swap_msg") or nme.endswith("querier::simulate") or nme.endswith("querier::reverse_simulate"):
-                idx = 1
-                pa = arg_origins(w, b, t, idx, taint=True)
-                ctx.ob("C19-R7", "%s|hop-address|%s" % (q, nme.split("::")[-1]), any(o.kind == "call" and o.a.endswith("querier::query_pair_info") for o in pa),
-                       "hop executed/simulated at %s" % sorted(map(repr, pa))[:3], w.where(b))
+            pa = scope_origins(model, chain_, w_, t["args"][1], w_.at_term(b), taint=True)
+            ctx.ob("C19-R7", "%s|hop-address|%s" % (q, nme.split("::")[-1]), any(o.kind == "call" and o.a.endswith("querier::query_pair_info") for o in pa),
+                   "hop executed/simulated at %s" % sorted(map(repr, pa))[:3], w_.where(b))
 
 
 CURSOR_FNS = ["terraswap_factory::state::calc_range_start", "terraswap_factory::state::trio_calc_range_start",
@@ -525,6 +524,18 @@ def check_simulation_visits_every_hop(ctx, model):
         return
     nexts = v.calls_to(r"as std::iter::Iterator>::next$")
     oks = set(ok_value_blocks(v))
+    if not nexts and oks:
+        # the loop written as a fold / for_each over the operations: these visit every element, and a closure returning a
+        # Result stops them early only with an error
+        from .common import scope_calls
+        folds = v.calls_to(r"as std::iter::Iterator>::(try_fold|fold|try_for_each|for_each)$")
+        inner = [1 for sv, chain, b, t in scope_calls(model, p, r"querier::query_pair_info$") if chain]
+        if folds and inner:
+            early = [b for b, t in folds if "ControlFlow" in (t.get("callee_full") or "")]
+            ctx.ob("C19-R7", "%s|every-hop-visited" % p, not early,
+                   "operations are folded over (%s); a fold visits every element unless its closure breaks with success: %s" % (
+                       [mname(t).split("::")[-1] for b, t in folds], "ControlFlow in use" if early else "closure returns a Result"), v.where(folds[0][0]))
+            return
     if not nexts or not oks:
         ctx.missing("C19-R7", "operation loop / Ok return of %s" % p)
         return
